@@ -106,11 +106,26 @@ func c15Step(r *Rand, kind int) []string {
 		return []string{"- run: echo", "  " + id + "_key: 1"}
 	case 13:
 		return []string{"- run: echo ${{ github." + id + " }}"}
+	case 14, 15:
+		// several diagnostics at ONE position: required inputs of a popular action are missing (the
+		// pool is what the unchanged tree reports for actions with two or more required inputs)
+		act := r.Pick(c15MultiRequired)
+		if r.Chance(1, 3) {
+			return []string{"- uses: " + act, "  with:", "    " + id + ": 1"}
+		}
+		return []string{"- uses: " + act}
 	}
 	return []string{"- run: echo ok " + id}
 }
 
-const c15StepKinds = 14
+const c15StepKinds = 16
+
+// c15MultiRequired: popular actions with two or more required inputs; `uses:` without `with:` yields
+// one "missing input" diagnostic per input, all at the position of the action name.
+var c15MultiRequired = []string{
+	"actions/cache@v4", "actions/cache/restore@v4", "actions/cache/save@v4", "actions/add-to-project@v1.0.1", "actions/delete-package-versions@v5",
+	"azure/aks-set-context@v4", "dawidd6/action-send-mail@v1", "dawidd6/action-send-mail@v3", "google-github-actions/upload-cloud-storage@v2", "ReactiveCircus/android-emulator-runner@v2",
+}
 
 func c15Workflow(r *Rand, clean bool) string {
 	var b strings.Builder
@@ -126,6 +141,10 @@ func c15Workflow(r *Rand, clean bool) string {
 		b.WriteString("permissions:\n  " + c15Ident(r) + ": read\n")
 	}
 	b.WriteString("jobs:\n")
+	if !clean && r.Chance(1, 6) {
+		// a job without runs-on and steps: two diagnostics at the position of the job id
+		b.WriteString("  bare" + c15Ident(r) + ":\n    name: " + c15Ident(r) + "\n")
+	}
 	nj := r.Range(1, 3)
 	for j := 0; j < nj; j++ {
 		job := fmt.Sprintf("job%d", j)
@@ -190,6 +209,10 @@ func c15GenProject(r *Rand) *c15Project {
 	nSub := r.Range(1, 3)
 	for i := 0; i < nSub; i++ {
 		add(".github/workflows/"+r.Pick(c15SubDirs)+"/"+r.Pick(c15SubNames), c15Workflow(r, r.Chance(1, 8)))
+	}
+	if r.Chance(1, 6) {
+		// neither `on` nor `jobs`: two diagnostics at 1:1 (plus an unexpected key there)
+		add(".github/workflows/"+r.Pick([]string{"noon.yml", "sub/noon.yaml"}), r.Pick([]string{"foo_" + c15Ident(r) + ": bar\n", "name: only a name\n", "env:\n  A: b\n"}))
 	}
 	if r.Chance(1, 10) {
 		// a file that is not YAML at all: one parse error, goes through the same filter
